@@ -1144,7 +1144,15 @@ func (c *Conn) recvPayload(payload rpccp.Payload) (_ capnp.Ptr, locals uintSet, 
 		var err error
 		mtab[i], local, err = c.recvCap(ptab.At(i))
 		if err != nil {
-			releaseList(mtab[:i]).release()
+			// Releasing an import sends a Release message, which needs c.mu
+			// and the sender lock; the caller holds c.mu and possibly the
+			// sender lock, so the release has to happen on its own task.
+			rl := releaseList(mtab[:i])
+			c.tasks.Add(1)
+			go func() {
+				defer c.tasks.Done()
+				rl.release()
+			}()
 			return capnp.Ptr{}, nil, annotate(err).errorf("read payload: capability %d", i)
 		}
 		if local {
